@@ -126,6 +126,14 @@ fn main() {
         Some("c09-server") => {
             std::process::exit(props::c09::server_main());
         }
+        Some("c09-child") => {
+            // c09-child <file> <threads> <mode>: one parse(+gc)+emit of the
+            // parallel build in a process of its own; prints the answer line
+            let path = args.get(2).cloned().unwrap_or_else(|| usage());
+            let threads: usize = args.get(3).and_then(|s| s.parse().ok()).unwrap_or(1);
+            let mode: u8 = args.get(4).and_then(|s| s.parse().ok()).unwrap_or(0);
+            std::process::exit(props::c09::child_main(&path, threads, mode));
+        }
         Some("emit-hash") => {
             let path = args.get(2).cloned().unwrap_or_else(|| usage());
             let bytes = std::fs::read(path).unwrap();
@@ -257,10 +265,11 @@ fn main() {
         Some("dbg-structure") => {
             // print the module-level structure of a wasm file and of gc+emit of it
             let path = args.get(2).cloned().unwrap_or_else(|| usage());
-            let bytes = std::fs::read(path).unwrap();
+            let bytes = if path.ends_with(".wat") { wat::parse_file(&path).unwrap() } else { std::fs::read(path).unwrap() };
             let mut m = wal::Cfg::plain().to_config().parse(&bytes).unwrap();
             walrus::passes::gc::run(&mut m);
             let out = m.emit_wasm();
+            println!("gc output validates: {:?}", walrus_verif::optable::validate_walrus(&out));
             {
                 let (da, db) = (walrus_verif::decode::decode(&bytes).unwrap(), walrus_verif::decode::decode(&out).unwrap());
                 let mut iso = walrus_verif::iso::Iso::new(&da, &db);
